@@ -90,7 +90,7 @@ type binConn struct {
 	local   string
 }
 
-func dialBin(idx int, addr string, initClient bool) (*binConn, error) {
+func dialBin(idx int, addr string, initClient bool, db int) (*binConn, error) {
 	c, err := net.DialTimeout("tcp", addr, 3*time.Second)
 	if err != nil {
 		return nil, err
@@ -102,7 +102,9 @@ func dialBin(idx int, addr string, initClient bool) (*binConn, error) {
 	go bc.reader()
 	if initClient {
 		var cid [16]byte
-		copy(cid[:], []byte(fmt.Sprintf("rn-client-%06d", idx)))
+		// unique per connection AND per run: a closed connection's late replies are re-routed by the server to whoever
+		// announces the same client id (reconnect feature, C18's area), which must not be a later scenario's connection
+		copy(cid[:], []byte(fmt.Sprintf("rn%03d-%02d-%07x", db, idx%100, time.Now().UnixNano()&0xfffffff)))
 		ic := protocol.NewInitCommand(cid)
 		buf := make([]byte, 64)
 		if err := ic.Encode(buf); err != nil {
